@@ -1,25 +1,37 @@
 """Fault injection around the REAL adaptive.utils.save (property C14).
 
-The names `adaptive.utils.save` reaches for -- os.makedirs, open, the file
-object's write/close, os.replace (os.rename), os.path.exists, os.remove
-(os.unlink) -- are patched for the duration of one call.  Every call that
-concerns a path under the scratch root consumes one decision of the plan
-(["ok"] | ["fail", n] | ["die", n]; ok beyond the end), is recorded, and is then
-carried out on the real file system, fails with an OSError, or kills the
-process.  For a write, n bytes of the chunk reach the file (flushed) before the
-fault.  Everything else passes through untouched (flush, fsync, reads, paths
-elsewhere).
+The names `adaptive.utils.save` reaches for -- os.makedirs, open, os.replace
+(os.rename), os.path.exists, os.remove (os.unlink) -- are patched for the
+duration of one call.  The injected `open` honours its `mode` and `buffering`
+arguments the way the real one does: it opens the real file as a raw FileIO,
+puts a fake RAW file (io.RawIOBase) in front of it and wraps that in the real
+io.BufferedWriter / TextIOWrapper exactly when the real open would; with
+buffering=0 the raw object itself is handed out.  Faults are injected at the
+raw layer, i.e. where write(2)/close(2) happen.
+
+Every call that concerns a path under the scratch root consumes one decision of
+the plan (["ok"] | ["fail", n] | ["die", n] | ["short", k]; ok beyond the end),
+is recorded, and is then carried out on the real file system, fails with an
+OSError, or kills the process.  For a raw write, "fail"/"die" let n bytes reach
+the file before the fault; "short" accepts only k (1 <= k < len) bytes and
+returns k WITHOUT an error, as write(2) does on a full disk or at RLIMIT_FSIZE
+(a BufferedWriter retries the rest; code that writes to a raw file and ignores
+the count loses it).  Everything else passes through untouched (fsync, reads,
+paths elsewhere).
 
 In-process use (no deaths): run_case(cfg, plan).  Deaths: `python -m
 avh.impl_c14_inject` reads a JSON job list on stdin, runs each save in a
 forked child that really dies (os._exit(9) or SIGKILL) at the chosen call, and
-prints the observations as JSON.
+prints the observations as JSON.  Jobs with cfg["rlimit"]=k run the unpatched
+save in a forked child under resource.setrlimit(RLIMIT_FSIZE, k) with SIGXFSZ
+ignored, so that the real kernel produces the short write.
 """
 from __future__ import annotations
 
 import builtins
 import errno
 import gzip
+import io
 import json
 import os
 import shutil
@@ -30,6 +42,13 @@ OK = ["ok"]
 
 OLD_DATA = {-1.0: 1.0, 0.0: 0.5, 1.0: 2.0}
 NEW_DATA = {-1.0: 1.0, -0.5: 0.625, 0.0: 0.5, 0.5: 1.25, 1.0: 2.0}
+
+
+def big_data(n):
+    """n entries; pickled larger than the I/O buffer, so that a BufferedWriter writes straight through."""
+    return {i / 1024.0: (i * 37 % 1009) / 7.0 for i in range(n)}
+
+
 BYSTANDER = b"bystander\n"
 STALE = b"stale-temp"
 
@@ -49,6 +68,7 @@ class Injector:
         self.child, self.logfd, self.kill, self.err = child, logfd, kill, err
         self.idx = 0
         self.busy = False
+        self.active = False
         self.events = []
         self.saved = {}
 
@@ -166,13 +186,40 @@ class Injector:
             inj.log("exists", r, "", 0, "true" if ans else "false")
             return ans
 
-        def fopen(file, mode="r", *a, **k):
+        def fopen(file, mode="r", buffering=-1, encoding=None, errors=None, newline=None,
+                  closefd=True, opener=None):
             r = inj.rel(file) if isinstance(file, (str, bytes, os.PathLike)) else None
             if r is None or inj.busy or not isinstance(mode, str) or not any(c in mode for c in "wax+"):
-                return S["open"](file, mode, *a, **k)
-            real = inj.simple("open", r, "", lambda: S["open"](file, mode, *a, **k))
-            return FaultyFile(inj, real, r)
+                return S["open"](file, mode, buffering, encoding, errors, newline, closefd, opener)
+            # the argument checks of the real open
+            binary, text = "b" in mode, "b" not in mode
+            if not isinstance(buffering, int):
+                raise TypeError(f"an integer is required (got type {type(buffering).__name__})")
+            if binary and (encoding is not None or errors is not None or newline is not None):
+                raise ValueError("binary mode doesn't take an encoding/errors/newline argument")
+            if text and buffering == 0:
+                raise ValueError("can't have unbuffered text I/O")
+            rawmode = mode.replace("b", "").replace("t", "")
+            real = inj.simple("open", r, "", lambda: io.FileIO(file, rawmode, closefd=closefd, opener=opener))
+            raw = FaultyRaw(inj, real, r, mode)
+            if buffering == 0:
+                return raw                                  # unbuffered: the raw file itself
+            line_buffering = buffering == 1 and text
+            if buffering < 0 or buffering == 1:
+                buffering = io.DEFAULT_BUFFER_SIZE
+                inj.busy = True
+                try:
+                    bs = getattr(os.fstat(real.fileno()), "st_blksize", 0)
+                finally:
+                    inj.busy = False
+                if bs > 1:
+                    buffering = bs
+            buf = (io.BufferedRandom if "+" in mode else io.BufferedWriter)(raw, buffering)
+            if binary:
+                return buf
+            return io.TextIOWrapper(buf, encoding, errors, newline, line_buffering)
 
+        self.active = True
         os.makedirs = makedirs
         os.replace = mk_replace(S["replace"])
         os.rename = mk_replace(S["rename"])
@@ -183,6 +230,7 @@ class Injector:
 
     def uninstall(self):
         import os.path as osp
+        self.active = False
         S = self.saved
         os.makedirs, os.replace, os.rename = S["makedirs"], S["replace"], S["rename"]
         os.remove, os.unlink, osp.exists = S["remove"], S["unlink"], S["exists"]
@@ -190,65 +238,103 @@ class Injector:
         os.stat = S["stat"]
 
 
-class FaultyFile:
-    """Stands where the file object returned by open(tmp, 'wb') stands."""
+class FaultyRaw(io.RawIOBase):
+    """Stands where the raw FileIO underneath open(tmp, 'wb') stands."""
 
-    def __init__(self, inj, real, rel):
-        self._inj, self._real, self._rel = inj, real, rel
-        self._closed = False
+    def __init__(self, inj, real, rel, mode):
+        super().__init__()
+        self._inj, self._real, self._rel, self._mode = inj, real, rel, mode
 
-    def write(self, data):
+    name = property(lambda self: self._real.name)
+    mode = property(lambda self: self._real.mode)
+
+    def writable(self):
+        return self._real.writable()
+
+    def readable(self):
+        return self._real.readable()
+
+    def seekable(self):
+        return self._real.seekable()
+
+    def fileno(self):
+        return self._real.fileno()
+
+    def isatty(self):
+        return False
+
+    def seek(self, *a):
+        return self._real.seek(*a)
+
+    def tell(self):
+        return self._real.tell()
+
+    def truncate(self, *a):
+        return self._real.truncate(*a)
+
+    def readinto(self, b):
+        return self._real.readinto(b)
+
+    def _put(self, data):
         inj = self._inj
-        data = bytes(data)
-        d = inj.next()
-        n = len(data) if d[0] == "ok" else min(int(d[1]), len(data))
         inj.busy = True
         try:
-            self._real.write(data[:n])
-            self._real.flush()
+            while data:
+                k = self._real.write(data)
+                data = data[k:]
         finally:
             inj.busy = False
-        if d[0] == "die":
-            inj.log("write", self._rel, "", n, "die", data)
+
+    def write(self, b):
+        inj = self._inj
+        data = bytes(b)
+        if not inj.active:
+            self._put(data)
+            return len(data)
+        d = inj.next()
+        kind = d[0]
+        if kind == "ok":
+            n = len(data)
+        elif kind == "short":
+            n = min(max(int(d[1]), 1), len(data))
+            kind = "short" if n < len(data) else "ok"
+        else:
+            n = min(int(d[1]), len(data))
+        self._put(data[:n])
+        inj.log("write", self._rel, "", n, kind, data)
+        if kind == "die":
             inj.die()
-        if d[0] == "fail":
-            inj.log("write", self._rel, "", n, "fail", data)
+        if kind == "fail":
             raise inj.oserror("write")
-        inj.log("write", self._rel, "", n, "ok", data)
-        return n
+        return n                         # "short": fewer bytes than asked for, no error
 
     def close(self):
-        if self._closed:
+        if self.closed:
             return
         inj = self._inj
-        d = inj.next()
+        d = inj.next() if inj.active else OK
         if d[0] == "die":
             inj.log("close", self._rel, "", 0, "die")
             inj.die()
-        self._closed = True
         inj.busy = True
         try:
-            self._real.close()          # the descriptor is released either way
+            try:
+                self._real.close()      # the descriptor is released either way
+            finally:
+                super().close()
         finally:
             inj.busy = False
+        if not inj.active:
+            return
         if d[0] == "fail":
             inj.log("close", self._rel, "", 0, "fail")
             raise inj.oserror("close")
         inj.log("close", self._rel, "", 0, "ok")
 
-    def __enter__(self):
-        return self
-
-    def __exit__(self, *exc):
-        self.close()
-
-    def __getattr__(self, name):
-        return getattr(self._real, name)
-
 
 # ----------------------------------------------------------------------
-def data_of(name):
-    return {"old": OLD_DATA, "new": NEW_DATA}[name]
+def new_data_of(cfg):
+    return big_data(cfg["big"]) if cfg.get("big") else NEW_DATA
 
 
 def encode(data, compress):
@@ -299,7 +385,7 @@ def call_save(root, fname, cfg, plan, child=False, logfd=None):
     """Run the real save under the plan; cwd must already be root."""
     import adaptive.utils as U
     inj = Injector(root, plan, child=child, logfd=logfd, kill=cfg.get("kill", "exit"), err=cfg.get("err", 0))
-    data = data_of("new")
+    data = new_data_of(cfg)
     inj.install()
     try:
         try:
@@ -396,12 +482,53 @@ def run_case_forked(cfg, plan, root):
             "after": after, "same_inode": same_inode, "where": "forked child, " + how}
 
 
+def run_case_rlimit(cfg, root):
+    """The unpatched save in a forked child whose files may not grow beyond cfg["rlimit"] bytes:
+    the real write(2) comes back short, the next one fails with EFBIG.  Only the exit status
+    travels back (the child cannot write a log beyond the limit)."""
+    import resource
+    fname, rel = prepare(cfg, root)
+    before = snapshot(root)
+    st0 = os.stat(os.path.join(root, rel)) if cfg["prev"] else None
+    sys.stdout.flush()
+    pid = os.fork()
+    if pid == 0:
+        code = 5
+        try:
+            import adaptive.utils as U
+            os.chdir(root)
+            signal.signal(signal.SIGXFSZ, signal.SIG_IGN)
+            _, hard = resource.getrlimit(resource.RLIMIT_FSIZE)
+            resource.setrlimit(resource.RLIMIT_FSIZE, (int(cfg["rlimit"]), hard))
+            try:
+                ret = U.save(fname, new_data_of(cfg), cfg["compress"])
+                code = 0 if ret is True else 1 if ret is False else 4
+            except OSError:
+                code = 2
+            except BaseException:  # noqa: BLE001
+                code = 3
+        finally:
+            os._exit(code)
+    _, status = os.waitpid(pid, 0)
+    code = os.WEXITSTATUS(status) if os.WIFEXITED(status) else -os.WTERMSIG(status)
+    out = {0: ["returned", True], 1: ["returned", False], 2: ["raised", "?", "OSError"]}.get(
+        code, ["other", f"child ended with status {code}"])
+    after = snapshot(root)
+    st1 = os.stat(os.path.join(root, rel)) if os.path.exists(os.path.join(root, rel)) else None
+    same_inode = None if st0 is None or st1 is None else (st0.st_ino == st1.st_ino and st0.st_mtime_ns == st1.st_mtime_ns)
+    return {"cfg": cfg, "plan": [], "dst": rel, "out": out, "events": [], "before": before, "after": after,
+            "same_inode": same_inode, "where": f"forked child, real kernel, RLIMIT_FSIZE={cfg['rlimit']}"}
+
+
 def worker_main():
     jobs = json.load(sys.stdin)
     import adaptive.utils  # noqa: F401  (import once, before forking)
     res = []
     for j in jobs:
-        res.append(run_case_forked(j["cfg"], j["plan"], j["root"]))
+        if "rlimit" in j["cfg"]:
+            res.append(run_case_rlimit(j["cfg"], j["root"]))
+        else:
+            res.append(run_case_forked(j["cfg"], j["plan"], j["root"]))
         shutil.rmtree(j["root"], ignore_errors=True)
     real_stdout.write(json.dumps(res))
     real_stdout.flush()
